@@ -5,12 +5,13 @@
    hilbert_curve.rs (Gen/HilbertTables.v). *)
 From Coupe Require Import Lib.Prelude Lib.SFloat Model.Hilbert Gen.HilbertTables
   Proofs.HilbertCurve Proofs.HilbertCert Proofs.HilbertInst Proofs.HilbertEncode2D Proofs.HilbertPdep
-  Proofs.HilbertInterleave Proofs.Hilbert3D.
+  Proofs.HilbertInterleave Proofs.Hilbert3D Proofs.HilbertSeg.
+From Coq Require Import Floats.SpecFloat.
 Open Scope N_scope.
 
 (* ---- the source is in the shape the theorems are about *)
 Theorem C08_source_shape :
-  encode_2d_final_fixed = true /\ max_order_2d = 32 /\ max_order_3d = 21
+  encode_2d_final_fixed = true /\ seg_factor_capped = true /\ max_order_2d = 32 /\ max_order_3d = 21
   /\ lut2_order = 6%nat /\ lut2_chunk_bits = 12 /\ lut2_len = 16384.
 Proof. repeat split; reflexivity. Qed.
 
@@ -121,6 +122,35 @@ Theorem C08_encode_2d_pinned_refuted :
     exists x' y', x' < 2 ^ 32 /\ y' < 2 ^ 32 /\ (x, y) <> (x', y') /\
       encode_2d_gen false x y 32 = encode_2d_gen false x' y' 32.
 Proof. exact encode_2d_pinned_refuted. Qed.
+
+(* ---- segment_to_segment: the quantisation is monotone and maps the
+   bounding interval into [0, 2^order - 1] (IEEE-754 facts from Flocq; these two
+   theorems depend on the axioms of Coq's real numbers, listed below) *)
+Theorem C08_seg_monotone : forall f mn mx v v' c c',
+  valid64 f -> is_finite f = true -> sign_of f = false ->
+  valid64 mn -> valid64 v -> valid64 v' ->
+  is_finite mn = true -> is_finite v = true -> is_finite v' = true ->
+  fle v v' = true ->
+  seg_cell f mn mx v = Ok c -> seg_cell f mn mx v' = Ok c' -> c <= c'.
+Proof. exact seg_monotone. Qed.
+Theorem C08_seg_range : forall fuel mn mx order f v c,
+  seg_factor fuel mn mx order = Ok f ->
+  valid64 f -> is_finite f = true -> sign_of f = false ->
+  valid64 mn -> valid64 mx -> valid64 v ->
+  is_finite mn = true -> is_finite mx = true -> is_finite v = true ->
+  seg_cell f mn mx v = Ok c -> c <= 2 ^ order - 1.
+Proof. exact seg_range. Qed.
+Print Assumptions C08_seg_monotone.
+Print Assumptions C08_seg_range.
+
+(* the pinned factor `n / width` (before commit 5f6dac8) never leaves the loop
+   on a subnormal-width interval; the repaired one returns *)
+Theorem C08_seg_pinned_hangs : forall fuel,
+  seg_factor_gen false fuel (f64_of_bits 0) (f64_of_bits 20240225330731) 29 = OutOfFuel.
+Proof. exact seg_pinned_hangs. Qed.
+Theorem C08_seg_fixed_returns :
+  exists f, seg_factor_gen true 1 (f64_of_bits 0) (f64_of_bits 20240225330731) 29 = Ok f.
+Proof. exact seg_fixed_returns. Qed.
 
 (* ---- non-vacuity *)
 Example C08_nonvacuous_2d :
